@@ -165,6 +165,8 @@ def listing_case(ctx, rng, li):
         md = {}
         for k in ['k', 'j']:
             rv = gen_recorded(rng)
+            if isinstance(rv, dict) and any(str(x).startswith('py/') for x in rv):
+                continue        # a dict that spells the serializer's own vocabulary is outside its faithful domain when STORED
             if rv is not ABSENT:
                 md[k] = rv
         if rng.random() < 0.3:
